@@ -4,7 +4,8 @@
 
    The BMC holds, per entity ID, the list of record IDs of its instances and
    answers a request (entity, instance start s) with the total number of
-   instances and at most PageSize record IDs starting at instance s.  The
+   instances and at most eight record IDs starting at instance s - how many is
+   the BMC's choice for every response (any of PageSizes), not a constant.  The
    console pages by instance start, entity by entity, first with the IPMI
    entity IDs and - exactly when those yield an error or no record IDs at all -
    with the DCMI-specific ones.  Properties C16 (b). *)
@@ -12,7 +13,9 @@ EXTENDS Integers, Sequences, FiniteSets, TLC
 
 CONSTANTS MaxCount, PageSizes,
           G_Advance,     \* the next request starts after the instances received so far
-          G_Fallback     \* fall back on the DCMI entity IDs when the IPMI ones gave nothing
+          G_Fallback,    \* fall back on the DCMI entity IDs when the IPMI ones gave nothing
+          G_StopOnCount  \* an entity is finished when all its instances are in (or a page is empty), not when a page is
+                         \* shorter than the one before
 
 Entities == <<"inlet", "cpu", "board">>
 Families == {"ipmi", "dcmi"}
@@ -22,29 +25,31 @@ ListOf(f, e, n) == [i \in 1..n |-> Rid(f, e, i)]
 
 VARIABLES counts,     \* [family -> [entity index -> number of instances]]
           ipmiErr,    \* the BMC rejects IPMI entity IDs (DCMI v1.0/1.1)
-          page, fam, ent, acc, total, out, pc, nreq
-vars == <<counts, ipmiErr, page, fam, ent, acc, total, out, pc, nreq>>
+          page, fam, ent, acc, total, out, pc, nreq,
+          prev        \* number of record IDs in the previous page of the current entity (0: none yet)
+vars == <<counts, ipmiErr, page, fam, ent, acc, total, out, pc, nreq, prev>>
 
-Init == /\ counts \in [Families -> [1..3 -> 0..MaxCount]] /\ ipmiErr \in BOOLEAN /\ page \in PageSizes
-        /\ fam = "ipmi" /\ ent = 1 /\ acc = <<>> /\ total = 1 /\ out = [f \in Families |-> [e \in 1..3 |-> <<>>]] /\ pc = "req" /\ nreq = 0
+Init == /\ counts \in [Families -> [1..3 -> 0..MaxCount]] /\ ipmiErr \in BOOLEAN /\ page = 0   \* (kept for the trace format; the page size is chosen per response)
+        /\ fam = "ipmi" /\ ent = 1 /\ acc = <<>> /\ total = 1 /\ out = [f \in Families |-> [e \in 1..3 |-> <<>>]] /\ pc = "req" /\ nreq = 0 /\ prev = 0
 
-Page(f, e, s) == LET n == counts[f][e]  l == ListOf(f, e, n) IN SubSeq(l, s, IF s + page - 1 < n THEN s + page - 1 ELSE n)
+Page(f, e, s, p) == LET n == counts[f][e]  l == ListOf(f, e, n) IN SubSeq(l, s, IF s + p - 1 < n THEN s + p - 1 ELSE n)
 FinishFamily == IF fam = "ipmi" /\ G_Fallback /\ (\A e \in 1..3 : Len(out'[fam][e]) = 0) THEN /\ fam' = "dcmi" /\ ent' = 1 /\ pc' = "req"
                 ELSE /\ pc' = "done" /\ UNCHANGED <<fam, ent>>
 Request ==
   /\ pc = "req" /\ nreq' = nreq + 1
   /\ IF fam = "ipmi" /\ ipmiErr
      THEN \* an error from the first family sends the console to the second (if it falls back at all)
-          /\ out' = out /\ acc' = <<>> /\ total' = 1
+          /\ out' = out /\ acc' = <<>> /\ total' = 1 /\ prev' = 0
           /\ IF G_Fallback THEN fam' = "dcmi" /\ ent' = 1 /\ pc' = "req" ELSE pc' = "error" /\ UNCHANGED <<fam, ent>>
-     ELSE LET s == IF G_Advance THEN Len(acc) + 1 ELSE 1
-              got == Page(fam, ent, s)
+     ELSE \E p \in PageSizes :       \* the BMC's choice for this response
+          LET s == IF G_Advance THEN Len(acc) + 1 ELSE 1
+              got == Page(fam, ent, s, p)
               acc2 == acc \o got
               tot == counts[fam][ent]
-          IN IF Len(acc2) >= tot \/ got = <<>> \/ Len(acc2) = 255
-             THEN /\ out' = [out EXCEPT ![fam][ent] = acc2] /\ acc' = <<>> /\ total' = 1
+          IN IF Len(acc2) >= tot \/ got = <<>> \/ Len(acc2) = 255 \/ (~G_StopOnCount /\ Len(got) < prev)
+             THEN /\ out' = [out EXCEPT ![fam][ent] = acc2] /\ acc' = <<>> /\ total' = 1 /\ prev' = 0
                   /\ IF ent < 3 THEN ent' = ent + 1 /\ pc' = "req" /\ fam' = fam ELSE FinishFamily
-             ELSE /\ acc' = acc2 /\ total' = tot /\ UNCHANGED <<out, fam, ent, pc>>
+             ELSE /\ acc' = acc2 /\ total' = tot /\ prev' = Len(got) /\ UNCHANGED <<out, fam, ent, pc>>
   /\ UNCHANGED <<counts, ipmiErr, page>>
 Next == Request
 Spec == Init /\ [][Next]_vars /\ WF_vars(Next)
